@@ -12,6 +12,7 @@
     ownership accounting invariant (C02); the chain theorem gives the "exactly once as the
     [old] of its successor" half. *)
 From ASModel Require Import Base State Orderings_gen Step Run Progress Hist.
+From Seq Require Import HB.
 
 Theorem C04_only_rmw_writes :
   forall cf s t x c,
@@ -36,6 +37,40 @@ Theorem C04_swap_hands_back_replaced :
     /\ forall cf' l'' v, resume cf' l'' (WSwap (mem s (LStore c))) v = (l'', NRet (ROwned (mem s (LStore c)))).
 Proof. exact swap_step. Qed.
 
+
+(** "Owns a full reference": the writer that takes a value out must see everything the
+    writer that put it in did before (the value's initialisation, its count): the exchange that
+    removes the value acquires what the exchange that stored it released.  The side condition
+    is computed from the orderings the code requests NOW ([Orderings_gen] is regenerated from
+    /repo/src on every run): weakening the swap or the compare-exchange breaks these proofs. *)
+Theorem C04_handover_swap_swap :
+  forall X c init W1 W2 deref,
+    hbeq X init W1 -> kindof X W1 = k_swap (LStore c) o_lib_swap ->
+    kindof X W2 = k_swap (LStore c) o_lib_swap -> rf X W1 W2 -> hbeq X W2 deref ->
+    hb X init deref.
+Proof. exact (path_returned_previous o_lib_swap o_lib_swap eq_refl). Qed.
+
+Theorem C04_handover_cas_swap :
+  forall X c init W1 W2 deref,
+    hbeq X init W1 -> kindof X W1 = k_cas_ok (LStore c) o_cas_exchange ->
+    kindof X W2 = k_swap (LStore c) o_lib_swap -> rf X W1 W2 -> hbeq X W2 deref ->
+    hb X init deref.
+Proof. exact (path_returned_previous o_cas_exchange o_lib_swap eq_refl). Qed.
+
+Theorem C04_handover_swap_cas :
+  forall X c init W1 W2 deref,
+    hbeq X init W1 -> kindof X W1 = k_swap (LStore c) o_lib_swap ->
+    kindof X W2 = k_swap (LStore c) o_cas_exchange -> rf X W1 W2 -> hbeq X W2 deref ->
+    hb X init deref.
+Proof. exact (path_returned_previous o_lib_swap o_cas_exchange eq_refl). Qed.
+
+Theorem C04_handover_cas_cas :
+  forall X c init W1 W2 deref,
+    hbeq X init W1 -> kindof X W1 = k_cas_ok (LStore c) o_cas_exchange ->
+    kindof X W2 = k_swap (LStore c) o_cas_exchange -> rf X W1 W2 -> hbeq X W2 deref ->
+    hb X init deref.
+Proof. exact (path_returned_previous o_cas_exchange o_cas_exchange eq_refl). Qed.
+
 (** Non-vacuity: two threads swapping concurrently; the trace has two writes forming a chain
     from the initial value. *)
 Definition ex_cf := mkConfig true true.
@@ -51,3 +86,7 @@ Print Assumptions C04_only_rmw_writes.
 Print Assumptions C04_writes_form_chain.
 Print Assumptions C04_swap_hands_back_replaced.
 Print Assumptions C04_example.
+Print Assumptions C04_handover_swap_swap.
+Print Assumptions C04_handover_cas_swap.
+Print Assumptions C04_handover_swap_cas.
+Print Assumptions C04_handover_cas_cas.
